@@ -363,7 +363,7 @@ def run(ctx):
     tools = build_tools(ctx)
     if tools is None:
         ctx.finish()
-    nscripts = 54 if ctx.tier == 'quick' else 180
+    nscripts = 270 if ctx.tier == 'quick' else 540
     seeds = [ctx.seed] if ctx.tier == 'quick' else [ctx.seed + k for k in range(5)]
     res = correspondence(ctx, tools, nscripts, seeds)
     if res is not None:
